@@ -319,6 +319,70 @@ pub fn check_seq(case: &SeqCase) -> CaseResult {
     Ok(classes)
 }
 
+/// a multi-megabyte entry on a long-lived formatter, then ordinary entries: framing must survive
+/// the formatter's buffer housekeeping (buffers above 1 MiB are given back)
+#[derive(Clone, Debug, Serialize, Deserialize)]
+pub struct HugeSeqCase {
+    pub cfg: EmfCfg,
+    pub tag: u8,
+    pub mb_tenths: u8,
+    pub small_before: Vec<GenEntry>,
+    pub small_after: Vec<GenEntry>,
+    pub sampled_formatter: bool,
+}
+
+pub fn check_huge_seq(case: &HugeSeqCase) -> CaseResult {
+    let emf = no_panic("emf-build", || case.cfg.build())?;
+    let mut emf = if case.sampled_formatter {
+        SeqFmt::Sampled(emf.with_sampling_and_rng(ScriptRng::new(vec![5, 0])))
+    } else {
+        SeqFmt::Plain(emf)
+    };
+    let huge = super::c14::huge_entry(case.mb_tenths, case.tag);
+    let mut items: Vec<(&GenEntry, &'static str)> = case.small_before.iter().map(|e| (e, "before")).collect();
+    items.push((&huge, "huge"));
+    items.extend(case.small_after.iter().map(|e| (e, "after")));
+    let mut classes: Classes = vec![];
+    let mut huge_ok = false;
+    for (i, (entry, what)) in items.iter().enumerate() {
+        let mut out = vec![];
+        let d = no_panic("emf-format", || emf.run(entry, &Sampling::None, &mut out))?;
+        match d {
+            Decision::Ok => {
+                if let Err(e) = decode_output(&out) {
+                    vfail!(
+                        if *what == "after" && huge_ok { "invalid-json:after-huge-entry" } else { invalid_sig(entry) },
+                        "item {i} ({what}; a {:.1} MB entry of kind {} was formatted before: {huge_ok}): format returned Ok but the bytes are not complete valid EMF records: {e}\noutput head={:?}",
+                        1.1 + (case.mb_tenths % 20) as f64 / 10.0,
+                        case.tag % 4,
+                        String::from_utf8_lossy(&out[..out.len().min(600)])
+                    );
+                }
+                if *what == "huge" {
+                    huge_ok = true;
+                }
+                if *what == "after" && huge_ok {
+                    classes.push("accepted-after-huge-entry");
+                    classes.push("nt");
+                }
+            }
+            Decision::Validation(_) => {
+                vensure!(out.is_empty(), "validation-error-wrote-bytes", "item {i}: validation error but {} bytes written", out.len());
+            }
+            Decision::Io(e) => vfail!("io-error-on-vec", "item {i}: {e}"),
+        }
+    }
+    classes.push(match case.tag % 4 {
+        0 => "huge-string-property",
+        1 => "huge-many-long-metric-names",
+        2 => "huge-many-repeated-observations",
+        _ => "huge-split-dimension-values",
+    });
+    classes.sort();
+    classes.dedup();
+    Ok(classes)
+}
+
 pub fn run(ctx: &mut Ctx) {
     ctx.assume("writer is an in-memory Vec (I/O errors are covered by C16)");
     ctx.assume("strict JSON parser in vh::json is the syntax oracle (RFC 8259, duplicate members visible, no trailing commas)");
@@ -369,5 +433,25 @@ pub fn run(ctx: &mut Ctx) {
                 .prop_map(|(cfg, items, sampled_formatter)| SeqCase { cfg, items, sampled_formatter })
         },
         check_seq,
+    );
+    ctx.explore(
+        SubCfg::new(
+            "emf-valid-json-after-huge-entry",
+            "ONE long-lived formatter (Emf or SampledEmf), validations off: 0-2 valid entries, then a 1.1-3.0 MB entry (multi-megabyte string / thousands of long-named metrics / >100 000 repeated observations / split records with megabyte dimension values), then 1-3 valid entries. Oracle: every Ok output is complete valid framed records. Non-trivial = an entry accepted after the huge one",
+            ctx.tier.pick(40, 1_200),
+        )
+        .threads(ctx.tier.pick(4, 8))
+        .shrink_iters(10)
+        .mandatory(&["accepted-after-huge-entry", "huge-string-property", "huge-many-long-metric-names", "huge-many-repeated-observations", "huge-split-dimension-values"]),
+        || {
+            (any::<u8>(), any::<u8>(), crate::emfgen::arb_valid_seq(2..6, true), any::<bool>(), 0usize..3).prop_map(|(tag, mb_tenths, (mut cfg, mut entries), sampled_formatter, nb)| {
+                // the huge entries are written for a formatter that does not validate
+                cfg.ctor = Ctor::NoValidations;
+                let nb = nb.min(entries.len() - 1);
+                let small_after = entries.split_off(nb);
+                HugeSeqCase { cfg, tag, mb_tenths, small_before: entries, small_after, sampled_formatter }
+            })
+        },
+        check_huge_seq,
     );
 }
